@@ -42,6 +42,7 @@ def cases(draw, tier="quick"):
         P["ops"] = [draw(st.sampled_from(OPS))]
     P["w_op"] = draw(st.sampled_from([2, 5, 12]))
     n = draw(st.integers(20, 260))
+    P["closing_drops"] = draw(st.booleans())   # graceful server closes pass through the WebSocket CLOSING state
     P["tape"] = draw(st.binary(min_size=n, max_size=n))
     return P
 
